@@ -379,6 +379,16 @@ func (vc *FuncVC) applyContract(st *State, reach Term, ins *ssa.Call, callee *ss
 	if vc.discovery == 0 {
 		vc.sites = append(vc.sites, site+" @"+vc.pos(ins.Pos()))
 	}
+	if !vc.L.layer1 && fc.Layer1 && !callee.Object().Exported() {
+		// Code outside bigint.go reaches into the representation (innerAsUint64, updateInnerFromUint64, inner, ...). The
+		// contracts of those helpers speak about the inline words and the math/big handle, which layer 2 cannot see, and the
+		// representation invariant is established method by method in layer 1 only: this is an obligation that cannot be
+		// discharged, reported by name; the call is then treated like one to code without a contract.
+		vc.oblige("S", "layering/"+site, reach, TFalse, vc.propTags("C16"), ins.Pos(), "outside bigint.go a BigInt is used only through its exported methods (the representation invariant is proved per method)")
+		vc.havocAll(st)
+		vc.vals[ins] = vc.freshVal("call_"+callee.Name(), rt)
+		return
+	}
 	if fc.Trusted {
 		vc.trustedUsed[name] = true
 	} else {
